@@ -27,7 +27,15 @@ class LatestScenario(Scenario):
         self.node = node.latest()
         self.sink = self.node.sink(self.make_sink_fn(p["kind"], "S"))
         n = p["n"]
-        if p["nprod"] == 3:
+        items = p.get("items")
+        if p.get("idle"):
+            # a long quiet period before / between arrivals
+            self.horizon = 12.0
+            self.clock_marks((11.0,))
+        if items is not None:
+            # values that compare equal but are told apart by type (1, 1.0, True), and None as an element
+            self.add_producer("p", self.src, list(items), mode="burst")
+        elif p["nprod"] == 3:
             # a second, independent latest() pipeline in the same process
             self.srcB = Stream(asynchronous=True, loop=self.ioloop)
             self.nodeB = self.srcB.latest()
@@ -44,10 +52,10 @@ class LatestScenario(Scenario):
         return "latest"
 
     def _arrivals(self):
-        return [e[3] for e in self.log if e[0] == "emit" and (self.params["nprod"] != 3 or e[1] == "p")]
+        return [repr(e[3]) for e in self.log if e[0] == "emit" and (self.params["nprod"] != 3 or e[1] == "p")]
 
     def _delivered(self):
-        return [e[3] for e in self.log if e[0] == "in" and e[1] == "S"]
+        return [repr(e[3]) for e in self.log if e[0] == "in" and e[1] == "S"]
 
     def check_step(self):
         arr = self._arrivals()
@@ -76,20 +84,22 @@ class LatestScenario(Scenario):
                     opened += 1
                 elif e[0] == "out" and e[1] == "S":
                     opened -= 1
-                elif e[0] == "emit" and e[3] == arr[-1]:
+                elif e[0] == "emit" and repr(e[3]) == arr[-1]:
                     busy = opened > 0
             return Violation("newest-not-delivered", "latest",
                              "arrival-while-busy" if busy else "arrival-while-idle",
                              dict(arrivals=arr, delivered=dl))
-        done = [e[3] for e in self.log if e[0] == "out" and e[1] == "S"]
+        done = [repr(e[3]) for e in self.log if e[0] == "out" and e[1] == "S"]
         if self.params["kind"] != "sync" and done != dl:
             return Violation("consumer-not-finished", "latest", "", dict(delivered=dl, finished=done))
         return None
 
 
 def factory(key):
-    kind, pre, nprod, n = key
-    return lambda: LatestScenario(kind=kind, pre=pre, nprod=nprod, n=n)
+    kind, pre, nprod, n = key[:4]
+    items = key[4] if len(key) > 4 else None
+    idle = key[5] if len(key) > 5 else 0
+    return lambda: LatestScenario(kind=kind, pre=pre, nprod=nprod, n=n, items=items, idle=idle)
 
 
 def plan(ctx):
@@ -106,6 +116,13 @@ def plan(ctx):
             jobs.append(((kind, "map", 2, 3), 2))
         jobs.append((("future", "none", 3, 3), 1))
         jobs.append((("native", "none", 3, 2), 2))
+    d = 3 if ctx.thorough else 2
+    for kind in ("future", "sync", "native"):
+        jobs.append(((kind, "none", 1, 3, (1, 1.0, True)), d))            # equal values in a row
+        jobs.append(((kind, "none", 1, 3, (0, None, 0.0)), d))            # None (and falsy values) are elements
+        jobs.append(((kind, "map", 1, 4, (None, 1, 1.0, True)), d - 1))
+    jobs.append((("future", "none", 1, 2, None, 1), 2))                    # arrivals around a long idle period
+    jobs.append((("sync", "none", 1, 3, (1, 1.0, None), 1), 2))
     return jobs
 
 
